@@ -1,5 +1,5 @@
 (* C13 -- 100 Continue is sent exactly when asked for and a body is awaited. *)
-From MH Require Import proofs.Limits_proofs proofs.Impl_proofs.
+From MH Require Import proofs.Limits_proofs proofs.Impl_proofs proofs.ServerRead_proofs.
 
 (* a step emits Continue v iff it is the blank line ending a header block with the expect flag
    set and 0 < Content-Length <= L; then it emits exactly that one, carrying the request's version *)
@@ -42,7 +42,35 @@ Example C13_ex :
   match parse_stream 1024 51200 s with RMore _ _ o => o = [OContinue Http10] | _ => False end.
 Proof. vm_compute. reflexivity. Qed.
 
+(* server clause: through HttpServer::requests the interim responses queued by a read are exactly
+   conts_of (the OContinue outputs of the specification parser on carry ++ bytes read), appended to the
+   connection's unsent output; C08's progress theorems then deliver them without the body being sent *)
+Theorem C13_server_transfer : forall BUF, (2 <= BUF)%nat -> N.of_nat BUF < U32_LIMIT ->
+  forall w toks fd w' ys x ph,
+  Inv BUF w toks -> alookup fd (w_conns w) = Some x -> CInv BUF (sc_conn x) ph ->
+  k_tosrv (client_of w (sc_client x)) <> [] ->
+  handle_event BUF w (EvIn fd) = inl (w', ys) ->
+  let c := sc_conn x in
+  let t := k_tosrv (client_of w (sc_client x)) in
+  let d := firstn (Nat.min (BUF - length (c_win c)) (length t)) t in
+  d <> [] /\
+  exists y, alookup fd (w_conns w') = Some y /\ sc_gid y = sc_gid x /\ sc_client y = sc_client x /\
+    k_tosrv (client_of w' (sc_client x)) = skipn (length d) t /\
+  match runT BUF (c_pmax c) ph (c_win c ++ d) [] with
+  | RMore ph' carry outs =>
+      CInv BUF (sc_conn y) ph' /\ c_win (sc_conn y) = carry /\
+      unsent (sc_conn y) = unsent c ++ flat_map serialize (conts_of outs) /\
+      ys = map (fun r => (fd, sc_gid x, r)) (c_parsed c ++ reqs_of outs (c_files c))
+  | RErr outs e =>
+      CInv BUF (sc_conn y) PLine /\ c_win (sc_conn y) = [] /\
+      unsent (sc_conn y) = unsent c ++ flat_map serialize (conts_of outs ++ [bad_request_response e]) /\
+      ys = []
+  | ROutOfFuel => False
+  end.
+Proof. exact server_read_exact. Qed.
+
 Print Assumptions C13_iff.
 Print Assumptions C13_early.
 Print Assumptions C13_once.
 Print Assumptions C13_transfer.
+Print Assumptions C13_server_transfer.
